@@ -21,7 +21,7 @@ meta = {
     "origin": "written by an independent sub-agent that saw only the property text and a scratch worktree",
     "confirmed_in_scratch_worktree": confirm,
     "what_was_run": [
-        "tools/confirm_seed.sh <dir>: demo/run.sh on HEAD (must exit 0), git apply patch.diff, cargo test --workspace --no-fail-fast --offline (must pass), demo/run.sh with the patch (must exit non-zero)",
+        "tools/confirm_seed.sh <dir>: demo/run.sh on HEAD (must exit 0), git apply patch.diff, cargo test --workspace --no-fail-fast --offline [--lib --bins --tests for the later ones: the 349 pinned tests contain no doc-test] (must pass, 349 tests), demo/run.sh with the patch (must exit non-zero)",
         "tools/try_patch.sh <dir>/patch.diff quick " + prop + ": git -C /repo apply, ./check " + prop + " quick, git -C /repo checkout -- .",
     ],
     "detected_by": detected,
